@@ -13,17 +13,20 @@ namespace OpenVolumeMesh::IO::detail {
 
 uint8_t Decoder::u8()
 {
+    need(1);
     return *(cur_++);
 
 }
 uint16_t Decoder::u16()
 {
+    need(2);
     uint16_t res = (cur_[0] + (uint16_t(cur_[1]) << 8));
     cur_ += 2;
     return res;
 }
 uint32_t Decoder::u32()
 {
+    need(4);
     uint32_t res =  (cur_[0]
             + (uint32_t(cur_[1]) << 8)
             + (uint32_t(cur_[2]) << 16)
@@ -34,6 +37,7 @@ uint32_t Decoder::u32()
 
 uint64_t Decoder::u64()
 {
+    need(8);
     uint64_t res = (cur_[0]
             + (uint64_t(cur_[1]) << 8)
             + (uint64_t(cur_[2]) << 16)
@@ -78,12 +82,14 @@ void Decoder::read(std::string &v)
 
 void Decoder::read(uint8_t *s, size_t n)
 {
+    need(n);
     std::memcpy(s, cur_, n);
     cur_ += n;
 }
 
 void Decoder::read(char *s, size_t n)
 {
+    need(n);
     std::memcpy(s, cur_, n);
     cur_ += n;
 }
@@ -108,6 +114,7 @@ void Decoder::need(size_t n)
 
 void Decoder::padding(uint8_t n)
 {
+    need(n);
     for (int i = 0; i < n; ++i) {
         if (cur_[i] != 0) {
             throw parse_error("padding not 0");
